@@ -8,6 +8,8 @@ import subprocess
 ROOT = os.path.dirname(os.path.dirname(os.path.abspath(__file__)))
 # subject prefix of the fix: commit -> (properties, what failed before the repair, how the checks showed it)
 FIXED = {
+    'fix: push a WAL batch to replicas as one message carrying t': (['C13', 'C14'], 'the push path split a WAL batch into one message per entry (and at 256 KB) and numbered them with the caller-supplied SequenceNumber field: Engine.ApplyBatch with numbered entries got its first entry through, the send cursor moved past the batch and the replica kept a strict subset of the batch for ever while reporting its sequence as applied', 'C13/C14 system scenarios pushed-applybatch-numbered-entries and pushed-batches-over-256KB: no convergence / TRACE_Repl rejects (entry count at convergence)'),
+    'fix: do not hold the replica\'s lock while Stop waits for the': (['C14', 'C15'], 'Replica.Stop held r.mu across wg.Wait() while the replication loop takes r.mu after every applied message: Stop (Manager.Stop, server shutdown) could hang for ever', 'C13 system scenario restart0 under load: "replica stop did not return within 20 s"'),
     'fix: TxGet with an invalid key must not drop the transactio': (['C19', 'C17'], 'TxGet with an empty or over-long key removed the handle from the registry without rolling the transaction back: the database lock stayed held for good (no read-write transaction could begin again)', 'C19 generated behaviours: final probe "a fresh read-write transaction is granted" failed after an invalid TxGet (witness findings/W_C19_txget_invalid_key_drops_handle.json)'),
     'fix: a put of a nil value stores an empty value instead of ': (['C19', 'C01'], 'Put(k, nil) / every empty value sent over gRPC was logged as a put of an empty value but read back as absent until the next restart', 'C19 value class "empty": acknowledged Put then Get absent; present after reopen (witness findings/W_C19_empty_value_unreadable.json)'),
     'fix: Scan and TxScan apply start/end keys together with pre': (['C19'], 'Scan/TxScan ignored start_key/end_key whenever a prefix or suffix was given', 'C19 sweep over the whole scan-option product against ScanOK (witness findings/W_C19_scan_ignores_range_with_prefix.json)'),
